@@ -1,5 +1,5 @@
 SPECIFICATION ESpec
 CONSTANTS Depth = 2
- MaxSize = 7
+ MaxSize = 6
  Rich = FALSE
 CHECK_DEADLOCK FALSE
